@@ -53,9 +53,9 @@ def genNN (s : SchemaD) (mode : Nat) : Ty → Nat → RVal
     match kind with
     | some .object => .obj n
     | some .interface | some .union =>
-      let a := mix h 0 % 16
-      if mode == 1 && a == 6 then .obj (s.query.getD "Query")
-      else if mode == 1 && a == 5 then .obj "Nope__"
+      let a := mix h 0 % 4
+      if mode == 1 && a == 2 then .obj (s.query.getD "Query")
+      else if mode == 1 && a == 1 && mix h 3 % 4 == 0 then .obj "Nope__"
       else
         let poss := possibleTypes s n
         if poss.isEmpty then .null else .obj (nth poss (mix h 1 % poss.length) "")
